@@ -18,6 +18,7 @@ TRUSTED = [
 FINDINGS = {
     "F-C17-1": "tidy is not idempotent: Tidy(Tidy(x)) / CheckTidy(Tidy(x)) fail with an ambiguous import after a transitive provider was promoted to a requirement (model witness Tidy.Examples.w1)",
     "F-C17-2": "tidy is not idempotent: Tidy(Tidy(x)) / CheckTidy(Tidy(x)) cannot resolve an unversioned import because the written requirements change the implicit default major version (model witness Tidy.Examples.w2)",
+    "F-C17-4": "tidy is not idempotent: Tidy(Tidy(x)) succeeds with a different requirement list (or hits a dangling requirement): the requirements of a module promoted to a root are read only on the next run and change how imports inside dependencies resolve (model witness Tidy.Examples.w5)",
     "F-C17-3": "tidied requirements are not closed under minimal version selection: a listed module requires a higher version of another listed module than the one written (model witness Tidy.Examples.w3)",
 }
 
@@ -98,9 +99,9 @@ def run(ctx):
     else:
         args += ["--corpus", os.path.join(vlib.VERIF, "corpus", "C17", "cases.txt")]
         if quick:
-            args += ["--nuni", "700", "--nmf", "500", "--reps", "2"]
+            args += ["--nuni", "2000", "--nmf", "1000", "--reps", "2"]
         else:
-            args += ["--nuni", "9000", "--nmf", "6000", "--reps", "3"]
+            args += ["--nuni", "45000", "--nmf", "20000", "--reps", "3"]
     vlib.run(args, timeout=3000)
     cases = open(os.path.join(ctx.work, "cases.txt")).read().split("\n")[:-1]
     impl = open(os.path.join(ctx.work, "impl.txt")).read().split("\n")[:-1]
@@ -179,6 +180,8 @@ def run(ctx):
                 known["F-C17-1"] += 1
             elif fi["TT"] == "ERR:missing":
                 known["F-C17-2"] += 1
+            elif fi["TT"].startswith("OK") or fi["TT"] == "ERR:fetch":
+                known["F-C17-4"] += 1
             else:
                 violation({"kind": "not-idempotent-unclassified", "case": c, "impl": i, "model": m,
                            "what": "Tidy(Tidy(x)) != Tidy(x) or CheckTidy rejects Tidy(x), outside the two known mechanisms",
